@@ -56,8 +56,21 @@ pub enum ModuleSource {
     Broken(String),
 }
 
+#[derive(Clone, Copy, PartialEq, Eq, Debug)]
+pub enum NumFmt {
+    /// only renderings both dialects agree on; otherwise poison
+    Common,
+    /// Lua 5.1: %.14g
+    G14,
+    /// shortest round-trip digits, fixed notation
+    ShortestFixed,
+    /// shortest round-trip digits, scientific notation outside [1e-5, 1e21)
+    ShortestSci,
+}
+
 pub struct Interp {
     pub mode: Mode,
+    pub numfmt: NumFmt,
     pub globals: TableRef,
     pub log: Vec<String>,
     pub fuel: i64,
@@ -71,6 +84,28 @@ pub struct Interp {
     /// repair-model switch: evaluate `x ^ 0.5` with sqrt semantics (only used to attribute a known finding)
     pub pow_half_as_sqrt: bool,
     next_id: u64,
+    /// every table and variable cell created by this interpreter: emptied on drop to break reference cycles
+    all_tables: Vec<TableRef>,
+    all_cells: Vec<Cell>,
+}
+
+impl Drop for Interp {
+    fn drop(&mut self) {
+        for c in self.all_cells.drain(..) {
+            *c.borrow_mut() = Value::Nil;
+        }
+        for t in self.all_tables.drain(..) {
+            let mut t = t.borrow_mut();
+            t.map.clear();
+            t.order.clear();
+            t.meta = None;
+        }
+        self.module_cache.clear();
+        self.modules.clear();
+        let mut g = self.globals.borrow_mut();
+        g.map.clear();
+        g.order.clear();
+    }
 }
 
 const MAX_DEPTH: usize = 90;
@@ -136,6 +171,27 @@ pub fn fmt_g14(x: f64) -> String {
     }
 }
 
+/// shortest round-trip rendering (Luau style); `sci` selects scientific notation for large/small magnitudes
+pub fn fmt_shortest(x: f64, sci: bool) -> String {
+    if x.is_nan() {
+        return "nan".into();
+    }
+    if x.is_infinite() {
+        return if x > 0.0 { "inf".into() } else { "-inf".into() };
+    }
+    if x == 0.0 {
+        return if x.is_sign_negative() { "-0".into() } else { "0".into() };
+    }
+    let e = format!("{:e}", x); // shortest digits: d.ddde[-]X
+    let (mant, exp) = e.split_once('e').unwrap();
+    let exp: i32 = exp.parse().unwrap();
+    if sci && !(-5..21).contains(&exp) {
+        let sign = if exp < 0 { '-' } else { '+' };
+        return format!("{}e{}{:02}", mant, sign, exp.abs());
+    }
+    format!("{}", x)
+}
+
 /// number -> string shared by both dialects, or None when they (may) differ
 pub fn num_to_string_common(x: f64) -> Option<String> {
     if x.is_nan() {
@@ -179,7 +235,11 @@ pub fn str_to_number(s: &[u8]) -> Result<Option<f64>, ()> {
         }
         return Err(());
     }
-    if lower.starts_with("inf") || lower.starts_with("nan") || lower.contains('_') || lower.starts_with("0b") || lower.contains('p') {
+    if lower.contains('_') || lower.starts_with("0b") {
+        // literal-only spellings: no runtime accepts them in a string
+        return Ok(None);
+    }
+    if lower.starts_with("inf") || lower.starts_with("nan") || lower.contains('p') {
         return Err(());
     }
     match super::lexer::parse_luau_number(body) {
@@ -210,8 +270,10 @@ impl Interp {
         let globals = new_table();
         let string_lib = new_table();
         let et_meta = new_table();
+        let registry = vec![globals.clone(), string_lib.clone(), et_meta.clone()];
         let mut it = Interp {
             mode,
+            numfmt: NumFmt::Common,
             globals,
             log: Vec::new(),
             fuel: 20_000,
@@ -224,6 +286,8 @@ impl Interp {
             current_file: Rc::from("main"),
             pow_half_as_sqrt: false,
             next_id: 0,
+            all_tables: registry,
+            all_cells: Vec::new(),
         };
         it.install();
         it
@@ -285,7 +349,9 @@ impl Interp {
 
     pub fn new_table_value(&mut self) -> TableRef {
         self.next_id += 1;
-        new_table()
+        let t = new_table();
+        self.all_tables.push(t.clone());
+        t
     }
 
     // ------------------------------------------------------------------ serialisation
@@ -399,8 +465,10 @@ impl Interp {
         None
     }
 
-    fn declare(&self, frame: &mut Frame, name: &str, v: Value) {
-        frame.vars.push((intern(name), Rc::new(RefCell::new(v))));
+    fn declare(&mut self, frame: &mut Frame, name: &str, v: Value) {
+        let cell = Rc::new(RefCell::new(v));
+        self.all_cells.push(cell.clone());
+        frame.vars.push((intern(name), cell));
     }
 
     fn exec_block(&mut self, block: &Block, frame: &mut Frame) -> Res<Flow> {
@@ -766,6 +834,7 @@ impl Interp {
             Expr::Cast(x, _) => self.eval(x, frame)?,
             Expr::Table(items) => {
                 let t = new_table();
+                self.all_tables.push(t.clone());
                 let mut pos = 1usize;
                 for (i, item) in items.iter().enumerate() {
                     match item {
@@ -1092,9 +1161,14 @@ impl Interp {
             Value::Nil => b"nil".to_vec(),
             Value::Bool(true) => b"true".to_vec(),
             Value::Bool(false) => b"false".to_vec(),
-            Value::Num(n) => match num_to_string_common(*n) {
-                Some(s) => s.into_bytes(),
-                None => return poison("number formatting differs between dialects"),
+            Value::Num(n) => match self.numfmt {
+                NumFmt::Common => match num_to_string_common(*n) {
+                    Some(s) => s.into_bytes(),
+                    None => return poison("number formatting differs between dialects"),
+                },
+                NumFmt::G14 => fmt_g14(*n).into_bytes(),
+                NumFmt::ShortestFixed => fmt_shortest(*n, false).into_bytes(),
+                NumFmt::ShortestSci => fmt_shortest(*n, true).into_bytes(),
             },
             Value::Str(s) => (**s).clone(),
             Value::Table(_) => {
@@ -1232,6 +1306,7 @@ impl Interp {
                 };
                 self.log.push(format!("ET({})", tag));
                 let t = new_table();
+                self.all_tables.push(t.clone());
                 t.borrow_mut().tag = Some(tag);
                 t.borrow_mut().meta = Some(self.et_meta.clone());
                 Ok(vec![Value::Table(t)])
